@@ -50,6 +50,46 @@ def main():
         os.chdir(decoy.name)
     out = []
     for call in spec["calls"]:
+        if call.get("mode") == "main":
+            # one invocation of the command-line entry point with several inputs: the .pka text of every input (date line removed)
+            import contextlib
+            import hashlib
+            import io
+            import propka.run
+            with tempfile.TemporaryDirectory(prefix="c03m") as d:
+                here = os.getcwd()
+                os.chdir(d)
+                try:
+                    names = []
+                    for k, text in enumerate(call["files"]):
+                        names.append("in%d.pdb" % k)
+                        open(names[-1], "w").write(text)
+                    argv = list(call["args"])
+                    for n in names[:-1]:
+                        argv += ["-f", n]
+                    argv.append(names[-1])
+                    err = None
+                    import logging
+                    root = logging.getLogger("")
+                    before = list(root.handlers)
+                    try:
+                        with contextlib.redirect_stdout(io.StringIO()):
+                            propka.run.main([argv])
+                    except BaseException as e:  # noqa: BLE001
+                        err = type(e).__name__
+                    for h in list(root.handlers):
+                        if h not in before:
+                            root.removeHandler(h)
+                    texts = []
+                    for n in names:
+                        f = n[:-4] + ".pka"
+                        texts.append("\n".join(open(f).read().split("\n")[1:]) if os.path.exists(f) else None)
+                finally:
+                    os.chdir(here)
+            out.append(dict(sha=hashlib.sha256(repr((err, texts)).encode()).hexdigest(), error=err,
+                            files=[None if t is None else hashlib.sha256(t.encode()).hexdigest() for t in texts],
+                            summary=[], text=None, ngroups={}))
+            continue
         if call.get("mode") == "path":
             with tempfile.TemporaryDirectory(prefix="c03") as d:
                 p = os.path.join(d, "input.pdb")
